@@ -30,7 +30,7 @@ def av_enums(repo):
     for en in ('MatrixCoefficients', 'ColorPrimaries', 'TransferCharacteristic'):
         txt = strip_attrs_and_docs(src.get(src.find('enum', en)))
         txt = re.sub(r'\s*=\s*\d+\s*,', ',', txt)   # explicit discriminants dropped (no enum `as` casts in the verified code)
-        out.append('#[derive(Clone, Copy, PartialEq, Eq)]\n' + txt + '\n')
+        out.append('#[derive(Clone, Copy, PartialEq, Eq, Debug)]\n' + txt + '\n')
         out.append(f'''impl vstd::std_specs::cmp::PartialEqSpecImpl for {en} {{
     open spec fn obeys_eq_spec() -> bool {{ true }}
     open spec fn eq_spec(&self, other: &{en}) -> bool {{ *self == *other }}
